@@ -1387,7 +1387,7 @@ func main() {
 
 	if *jout != "" {
 		b, _ := json.MarshalIndent(map[string]interface{}{"roles": roles, "accesses": an.accs,
-			"unresolved": an.unresolved, "fields": fields, "files": sourceFiles}, "", " ")
+			"unresolved": an.unresolved, "fields": fields, "files": sourceFiles, "stale_reads": staleScan(an)}, "", " ")
 		if err := os.WriteFile(*jout, b, 0o644); err != nil {
 			fmt.Fprintln(os.Stderr, "go-access:", err)
 			os.Exit(2)
@@ -1432,4 +1432,365 @@ func main() {
 		fmt.Print(sb.String())
 	}
 	fmt.Fprintf(os.Stderr, "go-access: %d accesses, %d roles, %d fields, %d unresolved\n", len(an.accs), len(roles), len(fields), len(an.unresolved))
+}
+
+// ---------------------------------------------------------------- stale reads
+//
+// A lock (or atomic) makes each single access of a guarded field race-free, but not the USE of a
+// value read earlier: a value of `version` that is stored in a local variable or struct and is
+// still used after the goroutine parked (select without default, channel send/receive statement,
+// Lock/RLock/Wait) may be out of date. staleScan reports, for the fields in staleFields only:
+// store of a value read from the field (directly or through a getter method) into a variable,
+// a later parking statement, and a use of that variable (the part that holds the value) after it.
+// Purely syntactic, positions in source order, plus the loop-carried case.
+
+var staleFields = map[string]bool{"Client.version": true}
+
+type staleT struct {
+	Field string `json:"field"`
+	Func  string `json:"func"`
+	File  string `json:"file"`
+	Store int    `json:"store_line"`
+	Block int    `json:"block_line"`
+	Use   int    `json:"use_line"`
+	Var   string `json:"var"`
+}
+
+func staleScan(an *analyzer) []staleT {
+	out := []staleT{}
+	// getters: methods of a tracked struct that return the field
+	getters := map[string]string{} // method name -> field
+	for _, fi := range an.funcs {
+		if _, ok := tracked[fi.recv]; !ok || fi.decl.Recv == nil || len(fi.decl.Recv.List[0].Names) == 0 {
+			continue
+		}
+		rn := fi.decl.Recv.List[0].Names[0].Name
+		ast.Inspect(fi.decl.Body, func(n ast.Node) bool {
+			if r, ok := n.(*ast.ReturnStmt); ok {
+				for _, e := range r.Results {
+					if se, ok := e.(*ast.SelectorExpr); ok {
+						if id, ok := se.X.(*ast.Ident); ok && id.Name == rn && staleFields[fi.recv+"."+se.Sel.Name] {
+							getters[fi.name] = fi.recv + "." + se.Sel.Name
+						}
+					}
+				}
+			}
+			return true
+		})
+	}
+	var keys []string
+	for k := range an.funcs {
+		keys = append(keys, k)
+	}
+	sort.Strings(keys)
+	for _, k := range keys {
+		fi := an.funcs[k]
+		if _, isGetter := getters[fi.name]; isGetter && fi.recv != "" {
+			continue
+		}
+		w := &walker{an: an, fn: fi, file: fi.file, env: map[string]ast.Expr{}, marks: map[ast.Expr]string{}, fname: fi.key}
+		if fi.decl.Recv != nil {
+			for _, f := range fi.decl.Recv.List {
+				for _, n := range f.Names {
+					w.env[n.Name] = f.Type
+				}
+			}
+		}
+		bindParams(w.env, fi.decl.Type)
+		// which field does this expression read (anywhere inside)?  "" = none
+		var readOf func(e ast.Node) string
+		readOf = func(e ast.Node) string {
+			res := ""
+			if e == nil {
+				return ""
+			}
+			ast.Inspect(e, func(n ast.Node) bool {
+				switch x := n.(type) {
+				case *ast.FuncLit:
+					return false
+				case *ast.CallExpr:
+					if se, ok := x.Fun.(*ast.SelectorExpr); ok {
+						if f, ok := getters[se.Sel.Name]; ok {
+							res = f
+						}
+					}
+				case *ast.SelectorExpr:
+					sn := structName(w.typeOf(x.X))
+					if staleFields[sn+"."+x.Sel.Name] {
+						res = sn + "." + x.Sel.Name
+					}
+				}
+				return true
+			})
+			return res
+		}
+		type storeT struct {
+			v     string
+			path  []string
+			pos   token.Pos
+			field string
+		}
+		var stores []storeT
+		var blocks []token.Pos
+		type rng struct{ lo, hi token.Pos }
+		var comms, loops []rng
+		decl := map[string]token.Pos{}
+		basePath := func(e ast.Expr) (string, []string) {
+			var path []string
+			for {
+				switch x := e.(type) {
+				case *ast.Ident:
+					return x.Name, path
+				case *ast.SelectorExpr:
+					path = append([]string{x.Sel.Name}, path...)
+					e = x.X
+				case *ast.IndexExpr:
+					e = x.X
+				case *ast.StarExpr:
+					e = x.X
+				case *ast.ParenExpr:
+					e = x.X
+				default:
+					return "", nil
+				}
+			}
+		}
+		addStore := func(lhs ast.Expr, rhs ast.Expr, pos token.Pos) {
+			f := readOf(rhs)
+			if f == "" {
+				return
+			}
+			v, path := basePath(lhs)
+			if v == "" || v == "_" {
+				return
+			}
+			// struct literal with the read as the value of one key: only that field holds the value
+			r := rhs
+			if u, ok := r.(*ast.UnaryExpr); ok && u.Op == token.AND {
+				r = u.X
+			}
+			if cl, ok := r.(*ast.CompositeLit); ok {
+				sub := []string(nil)
+				n := 0
+				for _, el := range cl.Elts {
+					if kv, ok := el.(*ast.KeyValueExpr); ok && readOf(kv.Value) != "" {
+						n++
+						if id, ok := kv.Key.(*ast.Ident); ok {
+							if _, direct := kv.Value.(*ast.CompositeLit); !direct {
+								sub = []string{id.Name}
+							}
+						}
+					} else if !ok && readOf(el) != "" {
+						n += 2
+					}
+				}
+				if n == 1 && sub != nil {
+					path = append(path, sub...)
+				}
+			}
+			stores = append(stores, storeT{v, path, pos, f})
+		}
+		ast.Inspect(fi.decl.Body, func(n ast.Node) bool {
+			switch x := n.(type) {
+			case *ast.AssignStmt:
+				for i, l := range x.Lhs {
+					if id, ok := l.(*ast.Ident); ok && x.Tok == token.DEFINE {
+						if _, seen := decl[id.Name]; !seen {
+							decl[id.Name] = x.Pos()
+						}
+					}
+					if len(x.Lhs) == len(x.Rhs) {
+						addStore(l, x.Rhs[i], x.Pos())
+					} else if len(x.Rhs) == 1 {
+						addStore(l, x.Rhs[0], x.Pos())
+					}
+				}
+			case *ast.ValueSpec:
+				for i, nme := range x.Names {
+					if _, seen := decl[nme.Name]; !seen {
+						decl[nme.Name] = x.Pos()
+					}
+					if i < len(x.Values) {
+						addStore(nme, x.Values[i], x.Pos())
+					}
+				}
+			case *ast.SelectStmt:
+				hasDefault := false
+				for _, c := range x.Body.List {
+					cc := c.(*ast.CommClause)
+					if cc.Comm == nil {
+						hasDefault = true
+					} else {
+						comms = append(comms, rng{cc.Comm.Pos(), cc.Comm.End()})
+					}
+				}
+				if !hasDefault {
+					blocks = append(blocks, x.Pos())
+				}
+			case *ast.ForStmt:
+				loops = append(loops, rng{x.Pos(), x.End()})
+			case *ast.RangeStmt:
+				loops = append(loops, rng{x.Pos(), x.End()})
+			}
+			return true
+		})
+		inComm := func(p token.Pos) bool {
+			for _, c := range comms {
+				if c.lo <= p && p < c.hi {
+					return true
+				}
+			}
+			return false
+		}
+		ast.Inspect(fi.decl.Body, func(n ast.Node) bool {
+			switch x := n.(type) {
+			case *ast.UnaryExpr:
+				if x.Op == token.ARROW && !inComm(x.Pos()) {
+					blocks = append(blocks, x.Pos())
+				}
+			case *ast.SendStmt:
+				if !inComm(x.Pos()) {
+					blocks = append(blocks, x.Pos())
+				}
+			case *ast.CallExpr:
+				if se, ok := x.Fun.(*ast.SelectorExpr); ok {
+					switch se.Sel.Name {
+					case "Lock", "RLock", "Wait":
+						blocks = append(blocks, x.Pos())
+					}
+				}
+			}
+			return true
+		})
+		if len(stores) == 0 || len(blocks) == 0 {
+			continue
+		}
+		// uses: identifiers naming a stored variable, with the selector path applied to them
+		type useT struct {
+			v    string
+			path []string
+			pos  token.Pos
+		}
+		var uses []useT
+		skip := map[*ast.Ident]bool{}
+		var visit func(n ast.Node, lhs bool)
+		collect := func(e ast.Expr, lhs bool) {
+			v, path := basePath(e)
+			if v == "" {
+				return
+			}
+			// mark the base identifier as handled
+			b := e
+			for {
+				switch x := b.(type) {
+				case *ast.SelectorExpr:
+					b = x.X
+					continue
+				case *ast.IndexExpr:
+					b = x.X
+					continue
+				case *ast.StarExpr:
+					b = x.X
+					continue
+				case *ast.ParenExpr:
+					b = x.X
+					continue
+				}
+				break
+			}
+			if id, ok := b.(*ast.Ident); ok {
+				skip[id] = true
+			}
+			if !lhs {
+				uses = append(uses, useT{v, path, e.Pos()})
+			}
+		}
+		visit = func(n ast.Node, lhs bool) {}
+		_ = visit
+		ast.Inspect(fi.decl.Body, func(n ast.Node) bool {
+			switch x := n.(type) {
+			case *ast.AssignStmt:
+				for _, l := range x.Lhs {
+					collect(l, true) // a write to (part of) the variable is not a use of the old value
+					// but index expressions etc. inside are not examined further (rare)
+				}
+			case *ast.KeyValueExpr:
+				if id, ok := x.Key.(*ast.Ident); ok {
+					skip[id] = true
+				}
+			case *ast.SelectorExpr:
+				if id, ok := x.X.(*ast.Ident); ok && !skip[id] {
+					collect(x, false)
+				} else if _, ok := x.X.(*ast.SelectorExpr); ok {
+					v, _ := basePath(x)
+					if v != "" {
+						collect(x, false)
+						return false
+					}
+				}
+			case *ast.Ident:
+				if !skip[x] {
+					uses = append(uses, useT{x.Name, nil, x.Pos()})
+				}
+			}
+			return true
+		})
+		carries := func(st storeT, u useT) bool {
+			if u.v != st.v {
+				return false
+			}
+			n := len(st.path)
+			if len(u.path) < n {
+				n = len(u.path)
+			}
+			for i := 0; i < n; i++ {
+				if st.path[i] != u.path[i] {
+					// an exported selector may be an embedded struct that holds the field
+					return i == 0 && ast.IsExported(u.path[0]) && !ast.IsExported(st.path[0])
+				}
+			}
+			return true
+		}
+		line := func(p token.Pos) int { return an.fset.Position(p).Line }
+		seen := map[string]bool{}
+		for _, st := range stores {
+			for _, u := range uses {
+				if !carries(st, u) || u.pos == st.pos {
+					continue
+				}
+				var blk token.Pos
+				if u.pos > st.pos {
+					for _, b := range blocks {
+						if b > st.pos && b < u.pos {
+							blk = b
+							break
+						}
+					}
+				} else {
+					// loop-carried: the variable lives across iterations of a loop that parks
+					for _, l := range loops {
+						if l.lo <= st.pos && st.pos < l.hi && l.lo <= u.pos && decl[st.v] < l.lo {
+							for _, b := range blocks {
+								if l.lo <= b && b < l.hi {
+									blk = b
+									break
+								}
+							}
+						}
+					}
+				}
+				if blk == token.NoPos {
+					continue
+				}
+				key := fmt.Sprintf("%s|%s|%d", fi.key, st.v, line(st.pos))
+				if seen[key] {
+					continue
+				}
+				seen[key] = true
+				out = append(out, staleT{Field: st.field, Func: fi.key, File: fi.file.base, Store: line(st.pos),
+					Block: line(blk), Use: line(u.pos), Var: st.v})
+			}
+		}
+	}
+	return out
 }
